@@ -487,29 +487,30 @@ pub fn check_ns(c: &NsCase, ctx: &mut Ctx) -> CheckResult {
         let u = solve_dense(&h_ref, &c.ds);
         let t3 = fstar_third(cone, z, &u, &c.v);
         let exp: Vec<f64> = t3.iter().map(|v| 0.5 * v).collect();
-        if eta.iter().all(|v| *v == 0.0) && exp.iter().any(|v| *v != 0.0) {
+        let tol3 = (1e6 * EPS / (c.delta * c.delta)).max(1e-8);
+        // the contraction can cancel (e.g. ds and v supported on different coordinates, z with a zero entry):
+        // errors are measured norm-wise against max_ab |T_i(e_a,e_b)| |u| |v| / 2, not against the result alone
+        let mut natural = vec![0.0f64; n];
+        let (un, vn) = (norm_inf(&u), norm_inf(&c.v));
+        for a in 0..n {
+            for b in 0..n {
+                let (mut ea, mut eb) = (vec![0.0; n], vec![0.0; n]);
+                ea[a] = 1.0;
+                eb[b] = 1.0;
+                let t = fstar_third(cone, z, &ea, &eb);
+                for i in 0..n {
+                    // norm-wise: |T| |u| |v| (structure in u and v may cancel the true value down to zero)
+                    natural[i] = natural[i].max(0.5 * t[i].abs() * un * vn);
+                }
+            }
+        }
+        let floor = (0..n).map(|i| natural[i] * unit_n[i]).fold(0.0f64, f64::max);
+        let own = (0..n).map(|i| (exp[i] * unit_n[i]).abs()).fold(1e-300, f64::max);
+        if eta.iter().all(|v| *v == 0.0) && own > tol3 * floor {
+            // an all-zero result where the true term is not negligible: the implementation's Cholesky gave up
             ctx.label("higher-correction-skipped-by-cholesky");
             ensure!(c.delta < 1e-3, "higher_correction returned zero (Cholesky failure) at a well-conditioned point delta={:e}", c.delta);
         } else {
-            let tol3 = (1e6 * EPS / (c.delta * c.delta)).max(1e-8);
-            // the contraction can cancel (e.g. ds and v supported on different coordinates, z with a zero entry):
-            // errors are measured norm-wise against max_ab |T_i(e_a,e_b)| |u| |v| / 2, not against the result alone
-            let mut natural = vec![0.0f64; n];
-            let (un, vn) = (norm_inf(&u), norm_inf(&c.v));
-            for a in 0..n {
-                for b in 0..n {
-                    let (mut ea, mut eb) = (vec![0.0; n], vec![0.0; n]);
-                    ea[a] = 1.0;
-                    eb[b] = 1.0;
-                    let t = fstar_third(cone, z, &ea, &eb);
-                    for i in 0..n {
-                        // norm-wise: |T| |u| |v| (structure in u and v may cancel the true value down to zero)
-                        natural[i] = natural[i].max(0.5 * t[i].abs() * un * vn);
-                    }
-                }
-            }
-            let floor = (0..n).map(|i| natural[i] * unit_n[i]).fold(0.0f64, f64::max);
-            let own = (0..n).map(|i| (exp[i] * unit_n[i]).abs()).fold(1e-300, f64::max);
             if floor > own {
                 // compare against the larger scale by rescaling the tolerance
                 vclose(&eta, &exp, &unit_n, tol3 * floor / own, "higher_correction vs 1/2 * third derivative of f* contracted with (H^-1 ds, v)")?;
